@@ -221,10 +221,27 @@ Section Rules2.
   (* a conflict: only its position enters the modelled error *)
   Definition conflict := pos.
 
-  (* manager state: comparedFragmentPairs (persists over the whole validation), comparedFragments *)
-  Record ostate := mkOState_ { os_pairs : list (str * str * bool); os_compared : list str; os_stall : bool }.
-  Definition mkOState (p : list (str * str * bool)) (c : list str) : ostate := mkOState_ p c false.
-  Definition stalled_st (st : ostate) : ostate := mkOState_ st.(os_pairs) st.(os_compared) true.
+  (* manager state: comparedFragmentPairs (persists over the whole validation); os_compared is the
+     comparedFragments set of the current traversal (a local of findConflictsWithinSelectionSet /
+     findConflictsBetweenSubSelectionSets, saved and restored around nested sub-selection comparisons) *)
+  Record ostate := mkOState_ { os_pairs : list (str * str * bool); os_compared : list str; os_stall : bool;
+                              os_inprog : list (Z * Z * bool) (* pairs of fields being compared, by start offset *);
+                              os_annot : list Z (* fields and spreads the walker has reached so far, by start offset *) }.
+  Definition mkOState (p : list (str * str * bool)) (c : list str) : ostate := mkOState_ p c false [] [].
+  Definition set_pairs (st : ostate) (x : list (str * str * bool)) := mkOState_ x st.(os_compared) st.(os_stall) st.(os_inprog) st.(os_annot).
+  Definition set_compared (st : ostate) (x : list str) := mkOState_ st.(os_pairs) x st.(os_stall) st.(os_inprog) st.(os_annot).
+  Definition set_stall (st : ostate) (x : bool) := mkOState_ st.(os_pairs) st.(os_compared) x st.(os_inprog) st.(os_annot).
+  Definition set_inprog (st : ostate) (x : list (Z * Z * bool)) := mkOState_ st.(os_pairs) st.(os_compared) st.(os_stall) x st.(os_annot).
+  Definition set_annot (st : ostate) (x : list Z) := mkOState_ st.(os_pairs) st.(os_compared) st.(os_stall) st.(os_inprog) x.
+  Definition stalled_st (st : ostate) : ostate := set_stall st true.
+
+  (* pre: the document was validated before, every field and spread already carries the walker's
+     annotations (ObjectDefinition, Definition); otherwise they appear as the walk reaches them *)
+  Variable pre : bool.
+  Definition annotated (st : ostate) (p : pos) : bool := pre || existsb (Z.eqb p.(p_start)) st.(os_annot).
+  Definition obj_of (st : ostate) (f : afield) : option definition := if annotated st (af_pos f) then f.(af_obj) else None.
+  Definition body_of (st : ostate) (sp : aspread) : option (option definition * list selection) :=
+    if annotated st (snd sp) then frag_body (fst sp) else None.
 
   Definition pairs_has (ps : list (str * str * bool)) (a c : str) (excl : bool) : bool :=
     match find (fun x => let '(x1, x2, _) := x in str_eqb x1 a && str_eqb x2 c) ps with
@@ -242,7 +259,7 @@ Section Rules2.
     match fuel with
     | O => (None, stalled_st st)
     | S f =>
-      match fa.(af_obj), fb.(af_obj) with
+      match obj_of st fa, obj_of st fb with
       | Some oa, Some ob =>
         let excl := if excl0 then true else
                       negb (str_eqb oa.(df_name) ob.(df_name)) && dkind_eqb oa.(df_kind) KObject
@@ -253,7 +270,14 @@ Section Rules2.
                 | Some da, Some db => doTypesConflict da.(fd_type) db.(fd_type)
                 | _, _ => false end then (Some (af_pos fb), st)
         else
-          let '(cs, st') := betweenSubSelectionSets f excl (af_next fa) (af_sels fa) (af_next fb) (af_sels fb) st in
+          (* through a cycle of fragments the sub-fields can lead back to this very pair: the
+             comparison in progress covers it *)
+          let key := ((af_pos fa).(p_start), (af_pos fb).(p_start), excl) in
+          let same (k : Z * Z * bool) := let '(x, y, e) := k in Z.eqb x (af_pos fa).(p_start) && Z.eqb y (af_pos fb).(p_start) && Bool.eqb e excl in
+          if existsb same st.(os_inprog) then (None, st) else
+          let st0 := set_inprog st (key :: st.(os_inprog)) in
+          let '(cs, st1) := betweenSubSelectionSets f excl (af_next fa) (af_sels fa) (af_next fb) (af_sels fb) st0 in
+          let st' := set_inprog st1 (filter (fun k => negb (same k)) st1.(os_inprog)) in
           match cs with [] => (None, st') | _ => (Some (af_pos fb), st') end
       | _, _ => (None, st)
       end
@@ -279,8 +303,8 @@ Section Rules2.
     | O => ([], stalled_st st)
     | S f =>
       if mem_str (fst sp) st.(os_compared) then ([], st) else
-      let st1 := mkOState_ st.(os_pairs) (fst sp :: st.(os_compared)) st.(os_stall) in
-      match frag_body (fst sp) with
+      let st1 := set_compared st (fst sp :: st.(os_compared)) in
+      match body_of st sp with
       | None => ([], st1)
       | Some (ptype, body) =>
         let '(mb, spreads) := collect_set ptype body in
@@ -299,8 +323,8 @@ Section Rules2.
     | S f =>
       if str_eqb (fst sa) (fst sb) then ([], st) else
       if pairs_has st.(os_pairs) (fst sa) (fst sb) excl then ([], st) else
-      let st1 := mkOState_ (pairs_add st.(os_pairs) (fst sa) (fst sb) excl) st.(os_compared) st.(os_stall) in
-      match frag_body (fst sa), frag_body (fst sb) with
+      let st1 := set_pairs st (pairs_add st.(os_pairs) (fst sa) (fst sb) excl) in
+      match body_of st sa, body_of st sb with
       | Some (pa, ba), Some (pb, bb) =>
         let '(ma, spa) := collect_set pa ba in
         let '(mb, spb) := collect_set pb bb in
@@ -322,14 +346,17 @@ Section Rules2.
       let '(mb, spb) := collect_set pb sb in
       let '(c1, st1) := collectBetween f excl ma mb st in
       let '(c2, st2) := fold_left (fun acc x =>
-                                     let '(c, st') := betweenFieldsAndFragment f excl ma x (mkOState_ (snd acc).(os_pairs) [] (snd acc).(os_stall)) in
+                                     let '(c, st') := betweenFieldsAndFragment f excl ma x (set_compared (snd acc) []) in
                                      (fst acc ++ c, st')) spb (c1, st1) in
       let '(c3, st3) := fold_left (fun acc x =>
-                                     let '(c, st') := betweenFieldsAndFragment f excl mb x (mkOState_ (snd acc).(os_pairs) [] (snd acc).(os_stall)) in
+                                     let '(c, st') := betweenFieldsAndFragment f excl mb x (set_compared (snd acc) []) in
                                      (fst acc ++ c, st')) spa (c2, st2) in
-      fold_left (fun acc x =>
-                   fold_left (fun acc2 y => let '(c, st') := betweenFragments f excl x y (snd acc2) in (fst acc2 ++ c, st'))
-                             spb acc) spa (c3, st3)
+      let '(c4, st4) :=
+          fold_left (fun acc x =>
+                       fold_left (fun acc2 y => let '(c, st') := betweenFragments f excl x y (snd acc2) in (fst acc2 ++ c, st'))
+                                 spb acc) spa (c3, st3) in
+      (* the compared-fragments sets used above are local to this call: the caller's is untouched *)
+      (c4, set_compared st4 st.(os_compared))
     end.
 
   Definition overlap_fuel : nat :=
@@ -356,7 +383,7 @@ Section Rules2.
     | _ =>
       let '(m, spreads) := collect_set parent l in
       let '(c1, st1) := collectWithin m st in
-      let st2 := mkOState_ st1.(os_pairs) [] st1.(os_stall) in
+      let st2 := set_compared st1 [] in
       (fix go (sps : list aspread) (acc : list conflict * ostate) : list conflict * ostate :=
          match sps with
          | [] => acc
@@ -373,7 +400,7 @@ Section Rules2.
        (fun st e =>
           let run (parent : option definition) (l : list selection) :=
               let '(cs, st') := withinSelectionSet parent l st in
-              (mkOState_ st'.(os_pairs) st'.(os_compared) false,
+              (set_stall st' false,
                map err_at cs ++ (if st'.(os_stall) then [mkRErr [] (b "MODEL-OUT-OF-FUEL")] else [])) in
           match e with
           | (_, _, EvOperation o _) => run (root_def s o.(o_op)) o.(o_sels)
@@ -381,6 +408,7 @@ Section Rules2.
             run (match fd with Some x => stype s (type_name x.(fd_type)) | None => None end) sels
           | (_, _, EvInline (SInline tc _ sels _) od) => run (match tc with [] => od | _ => stype s tc end) sels
           | (_, _, EvFragment f) => run (stype s f.(f_typecond)) f.(f_sels)
+          | (_, _, EvAnnotate z) => (set_annot st (z :: st.(os_annot)), [])
           | _ => (st, [])
           end).
   Definition r_ValuesOfCorrectType (nosugg : bool) : rinst :=
